@@ -114,11 +114,21 @@ Proof. exact qua_write_index_key_refuted. Qed.
 Theorem C06_write_keysounds_nan_refuted :
   wf_chartb true (wit_conv_chart false true) = true /\ write_ok (wit_conv_chart false true) = false.
 Proof. exact qua_write_keysounds_nan_refuted. Qed.
-Theorem C06_isv_default_refuted :
+(* InitialScrollVelocity: refuted for the OLD defaults (''), fixed by e825b78: the live default is the float 1.0, every
+   live default has its key's declared type, and a document omitting the key is read and written back correctly *)
+Theorem C06_OLD_isv_default_refuted :
   wf_docb wit_omit_isv = true /\
-  (has_type 2 (match assoc K_InitialScrollVelocity Live.meta_defaults with Some v => v | None => YNull end)
-   || negb (rw_ok wit_omit_isv)) = true.
-Proof. exact qua_isv_default_refuted. Qed.
+  read_specb wit_omit_isv (Live.read_OLDMETA wit_omit_isv) = false /\
+  rw_specb wit_omit_isv (Live.read_OLDMETA wit_omit_isv >>= Live.write_OLDMETA) = false.
+Proof. exact OLD_isv_default_refuted. Qed.
+Theorem C06_isv_default_is_float_1 : assoc K_InitialScrollVelocity Live.meta_defaults = Some (YFloat 1).
+Proof. exact qua_isv_default_is_float_1. Qed.
+Theorem C06_isv_omitted_ok : wf_docb wit_omit_isv = true /\ read_ok wit_omit_isv = true /\ rw_ok wit_omit_isv = true.
+Proof. exact qua_isv_omitted_ok. Qed.
+Theorem C06_meta_defaults_typed :
+  all2 (fun kt kd => (fst kt =? fst kd) && has_type (if fst kt =? ref_tags_key then 4 else snd kt) (snd kd))
+       ref_meta_table Live.meta_defaults = true.
+Proof. exact qua_meta_defaults_typed. Qed.
 
 (* non-vacuity: inside the guards the whole pipeline satisfies the oracles on concrete non-trivial inputs *)
 Example C06_clean_document_ok :
